@@ -458,6 +458,214 @@ theorem kernel_report_dispatches (b : Backend) (s : St) (fd k : Nat) (t : Tok) (
     have := hrd.2 harm (hnl.2 hdone)
     exact ⟨⟨_, this.1⟩, this.2⟩
 
+/-! ## epoll: the cache is what the kernel has registered -/
+
+/-- cache = kernel's interest set for every open descriptor; closed numbers are not registered; a registered set is
+never empty -/
+def EpInv (e : Epoll) : Prop :=
+  ∀ fd, (e.isOpen fd = true → e.cache fd = kflags e fd) ∧ (e.isOpen fd = false → e.kreg fd = none) ∧
+        (∀ f, e.kreg fd = some f → f ≠ 0)
+
+/-- `select` always records the requested interest set, also when `epoll_ctl` failed (DEL on a descriptor the
+application closed already) — so a number whose cancel has been processed is clean again. -/
+theorem epoll_select_records (e : Epoll) (fd flags : Nat) : (epSelect e fd flags).1.cache fd = flags := by
+  simp [epSelect, Gen.epollRecordsOnError, upd]
+
+theorem ctl_frame (e : Epoll) (fd flags g : Nat) (hg : g ≠ fd) :
+    (ctlDel e fd).1 g = e.kreg g ∧ (ctlAdd e fd flags).1 g = e.kreg g ∧ (ctlMod e fd flags).1 g = e.kreg g := by
+  refine ⟨?_, ?_, ?_⟩
+  · simp only [ctlDel]; split <;> simp [upd, hg]
+  · simp only [ctlAdd]; split <;> simp [upd, hg]
+  · simp only [ctlMod]; split <;> simp [upd, hg]
+
+/-- the kernel's table after `select`, as a function of the decision taken -/
+def kregAfter (e : Epoll) (fd flags : Nat) : (Nat → Option Nat) × Bool :=
+  if e.cache fd ≠ 0 ∧ flags = 0 then ctlDel e fd
+  else if e.cache fd = 0 ∧ flags ≠ 0 then ctlAdd e fd flags
+  else if e.cache fd ≠ flags then ctlMod e fd flags
+  else (e.kreg, true)
+
+theorem epSelect_eq (e : Epoll) (fd flags : Nat) :
+    epSelect e fd flags = ({ e with kreg := (kregAfter e fd flags).1, cache := upd e.cache fd flags }, (kregAfter e fd flags).2) := by
+  simp [epSelect, kregAfter, Gen.epollRecordsOnError]
+
+theorem kregAfter_frame (e : Epoll) (fd flags g : Nat) (hg : g ≠ fd) : (kregAfter e fd flags).1 g = e.kreg g := by
+  obtain ⟨h1, h2, h3⟩ := ctl_frame e fd flags g hg
+  unfold kregAfter
+  split
+  · exact h1
+  · split
+    · exact h2
+    · split
+      · exact h3
+      · rfl
+
+/-- On an open descriptor, under the invariant, the decision DEL/ADD/MOD is the right one: the call succeeds and the
+kernel ends up with exactly the requested interest set (so an armed wait really is registered). -/
+theorem epoll_select_on_open_fd (e : Epoll) (hi : EpInv e) (fd flags : Nat) (ho : e.isOpen fd = true) :
+    (epSelect e fd flags).2 = true ∧ kflags (epSelect e fd flags).1 fd = flags := by
+  obtain ⟨h1, _, h3⟩ := hi fd
+  have hc := h1 ho
+  rw [epSelect_eq]
+  simp only [kflags, kregAfter] at *
+  cases hk : e.kreg fd with
+  | none =>
+    simp [hk] at hc
+    by_cases hf : flags = 0
+    · simp [hc, hf, hk]
+    · simp [hc, hf, ctlAdd, ho, hk, upd]
+  | some f =>
+    have hf0 := h3 f hk
+    simp [hk] at hc
+    by_cases hf : flags = 0
+    · simp [hc, hf, hf0, ctlDel, ho, hk, upd]
+    · by_cases hfe : f = flags
+      · simp [hc, hf, hfe, hk]
+      · simp [hc, hf, hf0, hfe, ctlMod, ho, hk, upd]
+
+/-- a registered interest set is never empty, also after `select` -/
+theorem kregAfter_nonzero (e : Epoll) (hi : EpInv e) (fd flags g f : Nat)
+    (hf : (kregAfter e fd flags).1 g = some f) : f ≠ 0 := by
+  by_cases hg : g = fd
+  · subst hg
+    obtain ⟨_, _, h3⟩ := hi g
+    unfold kregAfter at hf
+    split at hf
+    · simp only [ctlDel] at hf
+      split at hf
+      · simp [upd] at hf
+      · exact h3 f hf
+    · split at hf
+      · rename_i hc
+        simp only [ctlAdd] at hf
+        split at hf
+        · simp [upd] at hf; rw [← hf]; exact hc.2
+        · exact h3 f hf
+      · split at hf
+        · rename_i hn1 hn2 hc
+          simp only [ctlMod] at hf
+          split at hf
+          · simp [upd] at hf
+            intro h0
+            rw [← hf] at h0
+            -- flags = 0: then either the DEL branch or cache = 0 = flags
+            by_cases hc0 : e.cache g = 0
+            · exact hc (by rw [hc0, h0])
+            · exact hn1 ⟨hc0, h0⟩
+          · exact h3 f hf
+        · exact h3 f hf
+  · rw [kregAfter_frame e fd flags g hg] at hf
+    exact (hi g).2.2 f hf
+
+theorem epInv_step (e : Epoll) (o : EpOp) (hi : EpInv e) : EpInv (epStep e o) := by
+  cases o with
+  | sel fd fl =>
+    show EpInv (epSelect e fd fl).1
+    intro g
+    refine ⟨?_, ?_, ?_⟩
+    · intro ho
+      by_cases hg : g = fd
+      · subst hg
+        have ho' : e.isOpen g = true := by rw [epSelect_eq] at ho; exact ho
+        rw [epoll_select_records, (epoll_select_on_open_fd e hi g fl ho').2]
+      · rw [epSelect_eq] at ho ⊢
+        simp only [kflags, upd, hg, if_false]
+        rw [kregAfter_frame e fd fl g hg]
+        exact (hi g).1 ho
+    · intro hc
+      rw [epSelect_eq] at hc ⊢
+      have hk := (hi g).2.1 hc
+      by_cases hg : g = fd
+      · subst hg
+        have hc' : e.isOpen g = false := hc
+        simp only [kregAfter, ctlDel, ctlAdd, ctlMod, hc', hk]
+        split <;> (try split) <;> (try split) <;> simp_all [upd]
+      · simp only []
+        rw [kregAfter_frame e fd fl g hg]; exact hk
+    · intro f hf
+      rw [epSelect_eq] at hf
+      exact kregAfter_nonzero e hi fd fl g f hf
+  | closeFd fd =>
+    intro g
+    obtain ⟨h1, h2, h3⟩ := hi g
+    by_cases hg : g = fd
+    · subst hg; simp [epStep, upd, kflags]
+    · simp [epStep, upd, hg, kflags]; exact ⟨h1, h2, h3⟩
+  | reuse fd =>
+    simp only [epStep]
+    split
+    · rename_i hc
+      intro g
+      obtain ⟨h1, h2, h3⟩ := hi g
+      by_cases hg : g = fd
+      · subst hg
+        have := h2 hc.1
+        simp [upd, kflags, this, hc.2]
+      · simp [upd, hg, kflags]; exact ⟨h1, h2, h3⟩
+    · exact hi
+
+/-- **Invariant**: along every history of reactor requests, application closes and number re-use (after the cancel
+was processed), the epoll cache equals the kernel's interest set on every open descriptor. -/
+theorem epoll_cache_invariant (opened : Nat → Bool) (ops : List EpOp) : EpInv (epRun (epInit opened) ops) := by
+  have h0 : EpInv (epInit opened) := by
+    intro fd; simp [epInit, kflags]
+  generalize epInit opened = e at h0
+  induction ops generalizing e with
+  | nil => exact h0
+  | cons o os ih => simp only [epRun, List.foldl_cons]; exact ih _ (epInv_step e o h0)
+
+/-- **Consequence for re-used descriptor numbers**: a wait is registered on `fd`; the application closes the
+descriptor before the loop's EPOLL_CTL_DEL (which then fails); the cancel is processed; a new descriptor gets the
+same number and a wait (`g ≠ 0`) is armed on it: the kernel now holds exactly that interest set — the new wait is
+really registered, with EPOLL_CTL_ADD, without error. -/
+theorem epoll_reused_fd_is_registered (e : Epoll) (hi : EpInv e) (fd g : Nat) (hg : g ≠ 0) :
+    let e' := epRun e [.closeFd fd, .sel fd 0, .reuse fd]
+    e'.isOpen fd = true ∧ (epSelect e' fd g).2 = true ∧ kflags (epSelect e' fd g).1 fd = g := by
+  intro e'
+  have hinv : EpInv e' := by
+    show EpInv (epStep (epStep (epStep e (.closeFd fd)) (.sel fd 0)) (.reuse fd))
+    exact epInv_step _ _ (epInv_step _ _ (epInv_step _ _ hi))
+  have hopen : e'.isOpen fd = true := by
+    have hc : (epStep (epStep e (.closeFd fd)) (.sel fd 0)).cache fd = 0 := epoll_select_records _ fd 0
+    have ho : (epStep (epStep e (.closeFd fd)) (.sel fd 0)).isOpen fd = false := by
+      show (epSelect (epStep e (.closeFd fd)) fd 0).1.isOpen fd = false
+      rw [epSelect_eq]
+      simp [epStep, upd]
+    show (epStep (epStep (epStep e (.closeFd fd)) (.sel fd 0)) (.reuse fd)).isOpen fd = true
+    generalize epStep (epStep e (.closeFd fd)) (.sel fd 0) = e2 at hc ho
+    simp only [epStep]
+    rw [if_pos ⟨ho, hc⟩]
+    simp [upd]
+  exact ⟨hopen, epoll_select_on_open_fd e' hinv fd g hopen⟩
+
+example : EpInv (epRun (epInit fun _ => true) [.sel 7 1, .closeFd 7, .sel 7 0, .reuse 7, .sel 7 1]) :=
+  epoll_cache_invariant _ _
+
+/-! ## the device wrappers above the loop (basic_io_device / stream_socket / acceptor) -/
+
+/-- **On error: post the handler once and return without arming.**  Generated from the source: both `dont_block`
+overloads post the handler exactly once on their error branch and return false; every asynchronous entry point
+(`async_read_some`, `async_write_some`, `async_connect`, `async_read`, `async_write`, `acceptor::async_accept`) starts
+with `if(!dont_block(h)) return;`; and every branch after that guard schedules the handler exactly once: either one
+posted completion, or one armed wait / continuation object (never both, never none). -/
+theorem device_error_path_completes_once :
+    Gen.dontBlockEvPostsOnError = 1 ∧ Gen.dontBlockEvReturnsOnError = false ∧
+    Gen.dontBlockIoPostsOnError = 1 ∧ Gen.dontBlockIoReturnsOnError = false ∧
+    (∀ e ∈ Gen.deviceEntries, e.2.2.1 = true ∧ ∀ br ∈ e.2.2.2, br.1 + br.2 = 1) ∧
+    Gen.deviceEntries.length = 6 := by
+  decide
+
+/-- completions scheduled for the handler when an entry point is called on an unusable descriptor, computed from the
+generated shapes: the guard's posts, plus — if the guard does not stop the call — what the continuing branch schedules -/
+def completionsOnBadDescriptor (posts : Nat) (returns : Bool) (guard : Bool) (branch : Nat × Nat) : Nat :=
+  if guard then (if returns then posts + branch.1 + branch.2 else posts) else branch.1 + branch.2
+
+theorem bad_descriptor_completes_exactly_once :
+    ∀ e ∈ Gen.deviceEntries, ∀ br ∈ e.2.2.2,
+      completionsOnBadDescriptor (if e.2.1 = "ev" then Gen.dontBlockEvPostsOnError else Gen.dontBlockIoPostsOnError)
+        (if e.2.1 = "ev" then Gen.dontBlockEvReturnsOnError else Gen.dontBlockIoReturnsOnError) e.2.2.1 br = 1 := by
+  decide
+
 /-! ## exactly once, if the loop keeps running -/
 
 /-- **Exactly once under fairness.**  Take any reachable state in which the loop has not been stopped and a
